@@ -26,7 +26,7 @@ ASSUMPTIONS = ['RDKit SMILES reading, sanitisation, Kekulisation and ring percep
                'values compared at 1e-9 absolute']
 
 WEIGHTS = {
-    'BensonGA': dict(gas=6, alkene=3, aromatic=3, radical=3, special=1, oov=1), 'PPY': dict(gas=6, alkene=3, aromatic=3, radical=3, special=1, oov=1),
+    'BensonGA': dict(gas=6, alkene=3, aromatic=3, radical=3, special=1, oov=1, polycyclic=2), 'PPY': dict(gas=6, alkene=3, aromatic=3, radical=3, special=1, oov=1, polycyclic=2),
     'SalciccioliGA2012': dict(adsorbate=6, gas=2, special=1, oov=1), 'GRWSurface2018': dict(adsorbate=6, gas=2, special=1, oov=1),
     'GRWAqueous2018': dict(adsorbate=6, gas=2, oov=1), 'GuSolventGA2017Aq': dict(adsorbate=6, gas=2, oov=1),
     'GuSolventGA2017Vac': dict(adsorbate=6, gas=2, oov=1), 'PtSurface2023': dict(adsorbate=6, gas=2, oov=1),
@@ -133,6 +133,21 @@ def check_shipped(ctx, case):
             ctx.count()
             ctx.event('second-spelling-checked')
             compare(ctx, real.GetDescriptors, ref, alt[-1], L + ' (second spelling of %s)' % smi, corr_names=corr)
+    # the molecule handed over as an RDKit Mol object that already carries its hydrogens as atoms - twice, the same object
+    if res == 'ok' and not isinstance(want, tuple):
+        from rdkit import Chem
+        holder = {}
+
+        def via_mol(s):
+            if s not in holder:
+                holder[s] = Chem.AddHs(Chem.MolFromSmiles(s))
+            return real.GetDescriptors(holder[s])
+        for rep in ('Mol object with explicit hydrogens', 'the same Mol object a second time'):
+            ctx.count()
+            ctx.event('mol-object-input')
+            r2, _ = compare(ctx, via_mol, ref, smi, '%s; %s' % (L, rep), corr_names=corr)
+            if r2 != 'ok':
+                break
     f, heavy = features(smi, want)
     failure = isinstance(want, tuple)
     has_corr = (not failure) and any(k in corr for k in want)
